@@ -263,3 +263,35 @@ PROPS = {
         'level_note': 'PARTIAL: data-race freedom is the Go memory model (not modelled); deadlock freedom is proved for the model (mutex order + progress of lookups), not for the request channel at capacity. Trusted: Lean kernel; Go runtime; extractor (lockEdges, updateOrder); harness.',
     },
 }
+
+
+# ---- additions of the Flow / Reg layers and the later scenarios (DESIGN.md 16.1, 16.2) ----
+_ADD = {
+    'C02': (' Request path (Flow layer): ack_reaches_wire_once (on a stream that has not failed, at quiescence the wire is exactly the sequence of requests handed to sendRequest, the acknowledgement once, in its place), ack_never_discarded.',
+            ' Plus: a response acknowledged while Send is stalled and 1 040 lookups of another type fill the request channel (stalledAck, flowCase ack), per-stream nonce numbering, empty load assignments, recurring version strings.'),
+    'C03': (' Request path (Flow layer, bounded channel, any number of producers): request_never_discarded, wire_in_production_order, quiescent_wire_complete, quiescent_last_on_wire_is_last_produced, wire_follows_lock_order / enqueue_order_is_lock_order (requests enter the channel in the order of the client-lock sections, which are the operations of the sequential model), channel_bounded.',
+            ' Plus: flowCase burst (trace validation of the Flow model: 1 024 lookups get through while Send is stalled), parkedAck (yield point 7: a lookup racing the acknowledgement), stalled reconnects racing a single lookup.'),
+    'C04': (' Request path (Flow layer): nonce_per_stream_goroutines (every request on the wire of stream k was built under the client lock in the epoch of k; 13-clause epoch invariant), nothing_stale_queued.',
+            ' Plus: doubleFailure, parkedWatchReconnect (yield point 7), flowCase stop (authentication stop while a lookup is parked on the full channel), outage with 1 040 lookups.'),
+    'C05': (' Request path (Flow layer): watch_returns_partial (the only state in which a lookup inside Watch waits for ever, transport not stalled, is S12), watch_returns_below_capacity, watch_returns_after_stop, watch_released_in_bounded_steps (termination measure: no livelock). Known findings S12 (deadlock after a reconnect with the channel full) and S16 (a lookup that finds the channel full ignores its deadline while the transport is stalled).',
+            ' Plus: lookups of cached and uncached names at every position around the three lock sections of a response handler (deadlock watchdog), burst during an outage, flowCase outage / flood / stop / burst with the transport held stalled (S16).'),
+    'C07': (' Request path (Flow layer): no_deadlock_partial (the S12 shape is the ONLY stuck state), no_deadlock_below_capacity, s12_deadlock_reachable (for the capacity the source has), s12_is_forever, comes_to_rest_or_s12 (every execution of the program alone is finite and ends quiescent or in S12). Registration (Reg layer): policy_before_data_interleaved over all interleavings of updates and registrations, torn_registration_breaks_it.',
+            ' Plus: flowCase flood (S12 reproduced: sender in reqWhenReconnect, lookup in sendRequest), registrationRace, a lookup WAITING when the update parked in a handler arrives, dumpRace (a dump parked while rendering the cache vs an update), stale-detach schedules, a waiting lookup cancelled between handler sections.'),
+    'C08': ('', ' Plus: sessions (router and listener object live across calls while named tables change), literal-only regular expressions, routeOverlap (a call held up in the middle of its walk while another is routed).'),
+    'C09': ('', ' Plus: the same vectors through the decoder (four weighted routes in one virtual host).'),
+    'C10': ('', ' Plus: a lookup of an endpoint set / cluster that waits across the sections of a response handler (a response to an older subscription first; cancel at each gap) with the stale-read / ended-early spec.'),
+    'C11': ('', ' Plus: listeners with up to 9 filter chains, nested type URLs without authority, literal-only regular expressions; the spec covers the retriable-header extensions of each route.'),
+    'C13': ('', ' Plus: nested Any values with empty / authority-less / mangled type URLs.'),
+    'C14': ('', ' Plus: configurations built from the environment (metadata NAMESPACE), two spellings of one service, recurring name-table version strings.'),
+    'C15': ('', ' Plus: sessions (one middleware across table versions), a real-manager run with a rejected and an accepted new table version, a Thrift-proxy filter with failing cluster selection.'),
+    'C16': (' Registration (Reg layer): created_anytime_tracks_latest over all interleavings of updates and registrations (any number of breakers).', ' Plus: two breakers per manager, registration racing an update, recurring version strings.'),
+    'C17': (' Registration (Reg layer): created_anytime_tracks_latest.', ' Plus: two retry containers with late registration, returning table generations, routes sharing a cluster, registration racing an update.'),
+    'C18': (' Registration (Reg layer): created_anytime_tracks_latest.', ' Plus: rejected listener responses between accepted ones, registration racing an update.'),
+    'C19': ('', ' Plus: a world with 1 100 idle resources whose connection is stalled over the sweep (every withdrawal must reach the control plane).'),
+    'C20': (' History of Init calls: init_failures_all_reported, init_after_success, init_first_success_wins (fact initShape).', ' Plus: three Init calls on a partly repaired environment (child process), node identity on acknowledgement, rejection, re-subscription and changes on a second stream.'),
+}
+for _k, (_lt, _rule) in _ADD.items():
+    PROPS[_k]['level_text'] = PROPS[_k]['level_text'] + _lt
+    PROPS[_k]['rule'] = PROPS[_k]['rule'] + _rule
+PROPS['C07']['level_note'] = 'PARTIAL: data-race freedom is the Go memory model (not modelled; the locking discipline, a dump-vs-update exclusion scenario and the race detector of the thorough tier are what is checked). Deadlock freedom: mutex order + progress of lookups + the request path at capacity (Flow layer); S12 and S15 are recorded findings. Trusted: Lean kernel; Go runtime; extractor (lockEdges, updateOrder, flow facts, regShape); harness.'
+PROPS['C07']['assumptions'] = [a for a in PROPS['C07']['assumptions'] if 'outside the model (documented limitation S12)' not in a] + ['the lock-nesting edges come from a syntactic intra-package call graph (function names)']
